@@ -10,6 +10,7 @@
 #include <sys/mman.h>
 #include <unistd.h>
 
+#include <csignal>
 #include <chrono>
 #include <map>
 #include <sstream>
@@ -163,6 +164,14 @@ static void apply(World &w, const Op &op) {
   if (op.k == SWAP2_AB || op.k == SWAP2_BA) {
     const unsigned long long sa = w.ma.size(), sb = w.mb.size();
     const bool impossible = sa > PB::limit || sb > PA::limit;
+    // C07: two heap-backed vectors with the same allocator type, whose capacities fit each other's size_type, hand over
+    // their buffers: data() values are exchanged and no element operation is performed
+    const void *da = w.a().data(), *db = w.b().data();
+    const bool heap_a = !PA::fixed && !is_inline(w.a()) && w.a().capacity() > 0, heap_b = !PB::fixed && !is_inline(w.b()) && w.b().capacity() > 0;
+    const bool can_hand_over = heap_a && heap_b && std::is_same<PA::Alloc, PB::Alloc>::value &&
+                               (unsigned long long)w.a().capacity() <= (unsigned long long)std::numeric_limits<B_ST>::max() &&
+                               (unsigned long long)w.b().capacity() <= (unsigned long long)std::numeric_limits<A_ST>::max();
+    vf::L().reset_counters();
     rt::win([&] {
       if (op.k == SWAP2_AB) w.a().swap2(w.b());
       else w.b().swap2(w.a());
@@ -171,7 +180,13 @@ static void apply(World &w, const Op &op) {
       if (!rt::W().exc) vf::fail("C13", "swap2 of sizes %llu/%llu is impossible (limits %llu/%llu) but did not throw", sa, sb, PA::limit, PB::limit);
     } else {
       if (rt::W().exc) vf::fail("C13", "swap2 of sizes %llu/%llu threw (kind %d) although the exchange is possible", sa, sb, rt::W().exc_kind);
-      else std::swap(w.ma, w.mb);
+      else {
+        std::swap(w.ma, w.mb);
+        if (can_hand_over) {
+          if (w.a().data() != db || w.b().data() != da) vf::fail("C07", "swap2 of two heap-backed vectors did not hand over the buffers");
+          else if (vf::L().elem_ops() != 0) vf::fail("C07", "swap2 of two heap-backed vectors performed %ld element operations", vf::L().elem_ops());
+        }
+      }
     }
     return;
   }
@@ -241,8 +256,19 @@ struct RunResult {
   int nfail = 0;
   uint64_t digest = 0;
 };
+
+// watchdog: one execution (history + operation) that does not finish within 30 s is a hang (a corrupted container can
+// send an algorithm into an endless loop); it is reported like a crash, with the breadcrumb naming the execution
+static void on_alarm(int) {
+  static const char msg[] = "\nSUMMARY: watchdog: execution did not terminate within 30 s (hang)\n";
+  ssize_t r = write(2, msg, sizeof msg - 1);
+  (void)r;
+  _exit(97);
+}
+
 static RunResult run_once(const std::vector<Op> &hist, const Op *op, std::vector<Op> *enabled, bool big) {
   RunResult r;
+  alarm(30);
   World &w = g_w;
   vf::L().reset();
   vf::AL().reset();
@@ -278,6 +304,7 @@ static RunResult run_once(const std::vector<Op> &hist, const Op *op, std::vector
   if (vf::AL().n != 0) vf::fail("C13", "%d allocator blocks outstanding after both vectors were destroyed", vf::AL().n);
   r.nfail = vf::L().nfail;
   r.digest = g_digest;
+  alarm(0);
   return r;
 }
 
@@ -302,6 +329,7 @@ static std::string jesc(const std::string &s) {
 
 int main(int argc, char **argv) {
   rt::install_hooks();
+  std::signal(SIGALRM, on_alarm);
   bool explore = false, big = false;
   std::string replay;
   double deadline = 1e18;
@@ -371,7 +399,7 @@ int main(int argc, char **argv) {
   long transitions = 0, viol_total = 0, swaps = 0, swaps_impossible = 0;
   std::map<uint64_t, int> digests;
   struct VRec {
-    std::string msg, hist, op, key;
+    std::string tags, msg, hist, op, key;
   };
   std::vector<VRec> viols;
   std::map<std::string, int> sigs;
@@ -405,9 +433,9 @@ int main(int argc, char **argv) {
       if (samples.size() < 6 && op.k >= SWAP2_AB && (swaps % 37) == 1) samples.push_back(hist_str(h) + " | " + op_str(op) + " -> " + r.key_after);
       if (r.nfail) {
         ++viol_total;
-        std::string norm = std::string(kn[op.k]) + "|";
+        std::string norm = std::string(kn[op.k]) + "|" + vf::L().fails[0].tags + "|";
         for (const char *c = vf::L().fails[0].msg; *c; ++c) norm += (*c >= '0' && *c <= '9') ? '#' : *c;
-        if (sigs.emplace(norm, 1).second && viols.size() < 100) viols.push_back(VRec{vf::L().fails[0].msg, hist_str(h), op_str(op), keys[cur]});
+        if (sigs.emplace(norm, 1).second && viols.size() < 100) viols.push_back(VRec{vf::L().fails[0].tags, vf::L().fails[0].msg, hist_str(h), op_str(op), keys[cur]});
         continue;
       }
       if (seen.find(r.key_after) == seen.end()) {
@@ -424,7 +452,7 @@ int main(int argc, char **argv) {
   for (size_t x = 0; x < samples.size(); ++x) std::printf("%s\"%s\"", x ? "," : "", jesc(samples[x]).c_str());
   std::printf("],\n\"violations\":[");
   for (size_t x = 0; x < viols.size(); ++x)
-    std::printf("%s{\"tags\":\"C13\",\"msg\":\"%s\",\"hist\":\"%s\",\"op\":\"%s\",\"state\":\"%s\"}", x ? ",\n" : "", jesc(viols[x].msg).c_str(), jesc(viols[x].hist).c_str(), viols[x].op.c_str(), jesc(viols[x].key).c_str());
+    std::printf("%s{\"tags\":\"%s\",\"msg\":\"%s\",\"hist\":\"%s\",\"op\":\"%s\",\"state\":\"%s\"}", x ? ",\n" : "", viols[x].tags.c_str(), jesc(viols[x].msg).c_str(), jesc(viols[x].hist).c_str(), viols[x].op.c_str(), jesc(viols[x].key).c_str());
   std::printf("]}\n");
   return 0;
 }
